@@ -29,6 +29,7 @@
  R8 design helpers: span walk class pairs (shared with C08-R7); dual-stage composite p_max / gain (shared with C04-R9).
  Rz sentinel      : fields defaulted when None are None when absent from the input (loader .get without another default).
  R9 ROADM input  : upstream walk sums losses; upstream ROADM target read for the degree the walk came from.
+ R10 targets/budget : unconfigured-degree test over all three tables (shared with C06); Fiber.loss budget (shared with C05).
 """
 import ast
 
@@ -485,6 +486,18 @@ def r_roadm_input(ctx):
     ctx.need('R9.roadm-input', 3)
 
 
+
+def r10_targets_and_budget(ctx):
+    """R10: the design reads (a) per-degree targets that the operator configured - a degree counts as unconfigured only when none
+    of the three per-degree tables holds it (shared with C06) - and (b) a fibre loss that counts every lumped loss with its sign
+    (shared with C05)"""
+    from .c06 import r5_design as _r6
+    from .c05 import r2_budget as _r5
+    from .common import proxy
+    _r6(proxy(ctx, 'R10'))
+    _r5(proxy(ctx, 'R10'))
+
+
 from ..memo import rule_for as _memo_rule
 
 RULES_MEMO = ('Rm.memo', _memo_rule('C09', 'the operating point designed for another element or reference would be reused'))
@@ -494,4 +507,4 @@ from ..presence import rule_for as _presence_rule
 
 RULES_PRESENCE = ('Rp.presence', _presence_rule('C09', 'a configured power / gain / VOA of exactly 0 would be replaced by another value in the budget'))
 
-RULES = [('R6.span-loss', r6_span_loss), ('R1.budget', r1_budget), ('R2.rule', r2_rule), ('R3.saturation', r3_saturation), ('R4.voa', r4_voa), ('R5.chaining', r5_chaining), RULES_MEMO, RULES_PRESENCE, ('Rv.verbose-pure', rv_verbose), ('Re.for-each', re_foreach), ('R7.selected-budget', r7_selected_budget), ('Rn.arg-roles', rn_arg_roles), ('R8.design-helpers', r8_design_helpers), ('Rz.sentinel', rs_sentinel), ('R9.roadm-input', r_roadm_input)]
+RULES = [('R6.span-loss', r6_span_loss), ('R1.budget', r1_budget), ('R2.rule', r2_rule), ('R3.saturation', r3_saturation), ('R4.voa', r4_voa), ('R5.chaining', r5_chaining), RULES_MEMO, RULES_PRESENCE, ('Rv.verbose-pure', rv_verbose), ('Re.for-each', re_foreach), ('R7.selected-budget', r7_selected_budget), ('Rn.arg-roles', rn_arg_roles), ('R8.design-helpers', r8_design_helpers), ('Rz.sentinel', rs_sentinel), ('R9.roadm-input', r_roadm_input), ('R10.targets-and-budget', r10_targets_and_budget)]
